@@ -403,6 +403,40 @@ def check_first_wins(ctx, F):
     ctx.rule("det.first-wins", n, floor=0, note="map insertions with a value in functions of the walk-ordered phase; keyed by name alone = order-dependent")
 
 
+def _projects_to_key(chain, key_idx):
+    """one `map(|(k, _)| f(k))` / `map(|e| f(e.<key>))` of the chain uses nothing of the element but its sort key (and only `filter`s and
+    value-preserving adaptors come before it)"""
+    for c in chain[1:]:
+        mc = H.mcall(c)
+        if mc["name"] in ("filter", "cloned", "copied", "by_ref", "rev"):
+            continue
+        if mc["name"] != "map" or not mc["args"]:
+            return False
+        cl = H.strip(mc["args"][0])
+        if H.tag(cl) != "closure" or len(cl[2]) != 1:
+            return False
+        pat, body = cl[2][0], cl[3]
+        while H.tag(pat) in ("pref", "pderef"):
+            pat = pat[1]
+        if H.tag(pat) == "ptup":
+            for ci, cp in enumerate(pat[1]):
+                while H.tag(cp) in ("pref", "pderef"):
+                    cp = cp[1]
+                if H.tag(cp) == "wild":
+                    continue
+                if H.tag(cp) != "bind":
+                    return False
+                used = any(H.tag(z) == "local" and z[1] == cp[1] for z in H.walk(body))
+                if used and str(ci) != str(key_idx):
+                    return False
+            return True
+        if H.tag(pat) == "bind":
+            uses = _uses_of_local(body, pat[1])
+            return bool(uses) and all(u == ("field", key_idx) for u in uses)
+        return False
+    return False
+
+
 def check_tie_order(ctx, F):
     fns = [fn for fn in F.all("fn") if fn.get("hir") is not None and not fn["path"].startswith(OUT_OF_SCOPE)]
     n_sorts = n_partial = n_cons = 0
@@ -515,6 +549,8 @@ def check_tie_order(ctx, F):
                     if not only_key and not _effect_free(par[3]) and not _btree_sink_loop(par[3]):
                         verdict = (f"iterates the vector in order and its loop body has effects that use more than the sort key (`{var}` used as "
                                    f"{sorted(set('.' + u[1] if u[0] == 'field' else 'whole value' for u in uses))})")
+                elif names and names[0] in ("iter", "into_iter") and key_idx is not None and _projects_to_key(chain, key_idx):
+                    pass  # a `map` keeps only the sort key of each element: the sequence of keys does not depend on how ties are ordered
                 elif names and names[0] in ("iter", "into_iter"):
                     term = names[-1]
                     mids = names[1:-1]
